@@ -721,12 +721,12 @@ func (p *asyncProducer) newBrokerProducer(broker *Broker) *brokerProducer {
 	// minimal bridge to make the network response `select`able
 	go withRecover(func() {
 		for set := range bridge {
-			verifEvtSet("bp.sent", set, int(broker.ID()))
+			verifEvtSet("bp.sent", set, verifBP(bp))
 			request := set.buildRequest()
 
 			response, err := broker.Produce(request)
 
-			verifEvtSet("bp.answered", set, int(broker.ID()))
+			verifEvtSet("bp.answered", set, verifBP(bp))
 			responses <- &brokerProducerResponse{
 				set: set,
 				err: err,
@@ -785,7 +785,7 @@ func (bp *brokerProducer) run() {
 			if msg == nil {
 				continue
 			}
-			verifEvt("bp.recv", msg, msg.retries, int(bp.broker.ID()))
+			verifEvt("bp.recv", msg, msg.retries*8+int(msg.flags), verifBP(bp))
 
 			if msg.flags&syn == syn {
 				Logger.Printf("producer/broker/%d state change to [open] on %s/%d\n",
@@ -793,14 +793,14 @@ func (bp *brokerProducer) run() {
 				if bp.currentRetries[msg.Topic] == nil {
 					bp.currentRetries[msg.Topic] = make(map[int32]error)
 				}
-				verifEvt("wg.done.syn", msg, int(msg.Partition), int(bp.broker.ID()))
+				verifEvt("wg.done.syn", msg, int(msg.Partition), verifBP(bp))
 				bp.currentRetries[msg.Topic][msg.Partition] = nil
 				bp.parent.inFlight.Done()
 				continue
 			}
 
 			if reason := bp.needsRetry(msg); reason != nil {
-				verifEvt("bp.bounce", msg, msg.retries, int(bp.broker.ID()))
+				verifEvt("bp.bounce", msg, msg.retries, verifBP(bp))
 				bp.parent.retryMessage(msg, reason)
 
 				if bp.closing == nil && msg.flags&fin == fin {
@@ -816,7 +816,7 @@ func (bp *brokerProducer) run() {
 			if msg.flags&fin == fin {
 				// a fin chaser is never data: if we are not (or no longer) retrying its partition, hand it
 				// straight back to the partition producer, which is waiting for it to flush its backlog
-				verifEvt("bp.bounce", msg, msg.retries, int(bp.broker.ID()))
+				verifEvt("bp.bounce", msg, msg.retries, verifBP(bp))
 				bp.parent.retryMessage(msg, ErrOutOfBrokers)
 				continue
 			}
@@ -837,7 +837,7 @@ func (bp *brokerProducer) run() {
 					continue
 				}
 			}
-			verifEvt("bp.add", msg, msg.retries, int(bp.broker.ID()))
+			verifEvt("bp.add", msg, msg.retries, verifBP(bp))
 			if err := bp.buffer.add(msg); err != nil {
 				bp.parent.returnError(msg, err)
 				continue
@@ -849,7 +849,7 @@ func (bp *brokerProducer) run() {
 		case <-bp.timer:
 			bp.timerFired = true
 		case output <- bp.buffer:
-			verifEvt("bp.handover", nil, int(bp.broker.ID()), 0)
+			verifEvt("bp.handover", nil, verifBP(bp), 0)
 			bp.rollOver()
 		case response, ok := <-bp.responses:
 			if ok {
@@ -875,7 +875,7 @@ func (bp *brokerProducer) shutdown() {
 		case response := <-bp.responses:
 			bp.handleResponse(response)
 		case bp.output <- bp.buffer:
-			verifEvt("bp.handover", nil, int(bp.broker.ID()), 1)
+			verifEvt("bp.handover", nil, verifBP(bp), 1)
 			bp.rollOver()
 		}
 	}
@@ -907,7 +907,7 @@ func (bp *brokerProducer) waitForSpace(msg *ProducerMessage, forceRollover bool)
 				return nil
 			}
 		case bp.output <- bp.buffer:
-			verifEvt("bp.handover", nil, int(bp.broker.ID()), 2)
+			verifEvt("bp.handover", nil, verifBP(bp), 2)
 			bp.rollOver()
 			return nil
 		}
@@ -921,7 +921,7 @@ func (bp *brokerProducer) rollOver() {
 }
 
 func (bp *brokerProducer) handleResponse(response *brokerProducerResponse) {
-	verifEvtSet("bp.resp", response.set, int(bp.broker.ID()))
+	verifEvtSet("bp.resp", response.set, verifBP(bp))
 	if response.err != nil {
 		bp.handleError(response.set, response.err)
 	} else {
@@ -946,11 +946,11 @@ func (bp *brokerProducer) handleSuccess(sent *produceSet, response *ProduceRespo
 
 		block := response.GetBlock(topic, partition)
 		if block == nil {
-			verifEvt("bp.verdict", nil, int(partition), -1000)
+			verifEvt("bp.verdict", pSet.msgs[0], -1000, verifBP(bp))
 			bp.parent.returnErrors(pSet.msgs, ErrIncompleteResponse)
 			return
 		}
-		verifEvt("bp.verdict", nil, int(partition), int(block.Err))
+		verifEvt("bp.verdict", pSet.msgs[0], int(block.Err), verifBP(bp))
 
 		switch block.Err {
 		// Success
@@ -1015,7 +1015,7 @@ func (bp *brokerProducer) handleSuccess(sent *produceSet, response *ProduceRespo
 					bp.parent.retryMessages(pSet.msgs, block.Err)
 				}
 				// dropping the following messages has the side effect of incrementing their retry count
-				verifEvt("bp.drop", nil, int(partition), int(bp.broker.ID()))
+				verifEvt("bp.drop", pSet.msgs[0], int(partition), verifBP(bp))
 				bp.parent.retryMessages(bp.buffer.dropPartition(topic, partition), block.Err)
 			}
 		})
@@ -1059,7 +1059,7 @@ func (bp *brokerProducer) handleError(sent *produceSet, err error) {
 		})
 	default:
 		Logger.Printf("producer/broker/%d state change to [closing] because %s\n", bp.broker.ID(), err)
-		verifEvt("bp.closing", nil, int(bp.broker.ID()), 0)
+		verifEvt("bp.closing", nil, verifBP(bp), 0)
 		bp.parent.abandonBrokerConnection(bp.broker)
 		_ = bp.broker.Close()
 		bp.closing = err
